@@ -47,11 +47,32 @@ let words_case toks =
       ^ (if valid_data_id id then codes (data_word_verdict r id lanes) else "70+")
   | _ -> "unknown"
 
+(* ------------------------------------------------------------------ fsm *)
+let fsm_case toks =
+  match toks with
+  | [ ws ] ->
+      let words = List.map bytes_of_hex (String.split_on_char ',' ws) in
+      let buf = Buffer.create 64 and sbuf = Buffer.create 64 in
+      let st = ref S_InitialIHW and d = ref D_IHW in
+      List.iter
+        (fun w ->
+          let st', r = advance !st w in
+          st := st';
+          Buffer.add_string buf (Printf.sprintf "%d:%d " (int_of_n (fres_id r)) (int_of_n (fstate_id st')));
+          let d', v = dstep !d (List.nth w 9) (sl_tdh_no_data w) (sl_tdt_packet_done w) in
+          d := d';
+          Buffer.add_string sbuf (Printf.sprintf "%d:%d " (int_of_n (dverdict_id v)) (int_of_n (dstate_id d'))))
+        words;
+      String.trim (Buffer.contents buf) ^ " | " ^ String.trim (Buffer.contents sbuf)
+  | [ "abs_table" ; _ ] | _ ->
+      String.concat " " (List.map (fun s -> Printf.sprintf "%d:%d" (int_of_n (fstate_id s)) (int_of_n (dstate_id (abs s)))) all_fstates)
+
 let () =
   let stream = Sys.argv.(1) in
   let handler =
     match stream with
     | "words" -> words_case
+    | "fsm" -> fsm_case
     | _ -> prerr_endline ("unknown stream " ^ stream); exit 2
   in
   let buf = Buffer.create (1 lsl 20) in
